@@ -459,8 +459,8 @@ structure StepSpec (s : Settings) (e : Eval) (exact : Bool) (x : Vec) (t : Rat) 
   len : r.x.length = x.length
   nonzero : allZero e.rates = false
   kind :
-    (r.branch ≠ .tau ∧ ∃ k, k < e.rates.length ∧ r.dt ∈ i.expo ∧ r.counts = onehot e.rates.length k ∧
-        r.x = updateStateWithJump x e.cols k 1)
+    (r.branch ≠ .tau ∧ ∃ k, k < e.rates.length ∧ r.dt ∈ i.expo ∧ (∃ rk, e.rates[k]? = some rk ∧ 0 < rk) ∧
+        r.counts = onehot e.rates.length k ∧ r.x = updateStateWithJump x e.cols k 1)
     ∨ (r.branch = .tau ∧ exact = false ∧ tauOf s e x = some r.dt ∧ r.counts = i.pois.take e.rates.length ∧
         e.rates.length ≤ i.pois.length ∧
         r.x = vadd (applyCounts x e.cols r.counts) (vscale e.pure r.dt))
@@ -470,10 +470,10 @@ theorem first_spec {s : Settings} {e : Eval} {exact : Bool} {x : Vec} {t : Rat} 
     (hb : b ≠ .tau) (hm : (exact = true → b = .exact) ∧ (exact = false → b ≠ .exact))
     (h : ofFirst b (firstReaction e.cols e.rates s.lims x t i.expo) = .next r) : StepSpec s e exact x t i r := by
   obtain ⟨sr, hsr, hsucc, rfl⟩ := ofFirst_next h
-  obtain ⟨hnz, k, dt, hk, hdt, _, rfl⟩ := firstReaction_checked hsr
+  obtain ⟨hnz, k, dt, hk, hdt, hpos, rfl⟩ := firstReaction_checked hsr
   obtain ⟨hf, heq⟩ := checkJump_success hsucc
   rw [heq]
-  refine ⟨rfl, (failedJump_false_iff _ _).mp hf, ?_, hnz, Or.inl ⟨hb, k, hk, hdt, rfl, rfl⟩, hm⟩
+  refine ⟨rfl, (failedJump_false_iff _ _).mp hf, ?_, hnz, Or.inl ⟨hb, k, hk, hdt, hpos, rfl, rfl⟩, hm⟩
   simp [updateStateWithJump, vadd_length]
 
 theorem iter_next_spec {s : Settings} {e : Eval} {exact : Bool} {x : Vec} {t : Rat} {i : IterIn} {r : Rec}
